@@ -730,13 +730,15 @@ func c02Special(res *eng.Result, ss *sigSet) {
 		tc{"leafref/in-grouping-other-target-per-use/second", hdr + `grouping g { leaf r { type leafref { path "../a"; } } } container u1 { leaf a { type uint8; } uses g; } container u2 { leaf a { type string; } uses g; } }`, nil, "u2/r", func(l meta.Leafable) string { return l.Type().Resolve().Format().String() }},
 		// choice and case are not data nodes: ".." from a leaf in a case is the node holding the choice
 		tc{"leafref/from-a-case", hdr + `container c { leaf name { type uint16; } choice ch { case x { leaf r { type leafref { path "../name"; } } } } } }`, nil, "c/r", func(l meta.Leafable) string { return l.Type().Resolve().Format().String() }},
+		tc{"leafref/from-a-case-of-a-nested-choice", hdr + `container c { leaf name { type uint16; } choice o { case a { choice i { case b { leaf r { type leafref { path "../name"; } } } } } } } }`, nil, "c/r", func(l meta.Leafable) string { return l.Type().Resolve().Format().String() }},
+		tc{"leafref/two-steps-up-from-a-nested-case", hdr + `leaf top { type int64; } container c { choice o { case a { choice i { case b { choice j { leaf r { type leafref { path "../../top"; } } } } } } } } }`, nil, "c/r", func(l meta.Leafable) string { return l.Type().Resolve().Format().String() }},
 		tc{"leafref/relative-path-in-typedef", hdr + `typedef rt { type leafref { path "../a"; } } container c { leaf a { type int8; } leaf r { type rt; } } }`, nil, "c/r", func(l meta.Leafable) string { return l.Type().Resolve().Format().String() }},
 		tc{"leafref/with-key-predicate", hdr + `list l { key name; leaf name { type string; } leaf v { type uint32; } } leaf sel { type string; } leaf r { type leafref { path "/l[name=current()/../sel]/v"; } } }`, nil, "r", func(l meta.Leafable) string { return l.Type().Resolve().Format().String() }},
 	)
 	want := map[string]string{"typedef/same-name-in-sibling-scopes/first": "int32/true/5/n", "typedef/same-name-in-sibling-scopes/second": "string/true/low/s",
 		"typedef/same-name-in-two-groupings/first": "uint8/true/1/", "typedef/same-name-in-two-groupings/second": "boolean/true/true/",
 		"typedef/same-name-in-input-and-output/input": "int64/false//", "typedef/same-name-in-input-and-output/output": "string/false//", "typedef/same-name-in-two-notifications/second": "uint16/false//",
-		"leafref/in-grouping-other-target-per-use/first": "uint8", "leafref/in-grouping-other-target-per-use/second": "string", "leafref/from-a-case": "uint16", "leafref/relative-path-in-typedef": "int8", "leafref/with-key-predicate": "uint32",
+		"leafref/in-grouping-other-target-per-use/first": "uint8", "leafref/in-grouping-other-target-per-use/second": "string", "leafref/from-a-case": "uint16", "leafref/from-a-case-of-a-nested-choice": "uint16", "leafref/two-steps-up-from-a-nested-case": "int64", "leafref/relative-path-in-typedef": "int8", "leafref/with-key-predicate": "uint32",
 		"enum-restricted/leaf": "six=6,two=2", "enum-restricted/sibling-keeps-all": "five=5,six=6,two=2,zero=0", "enum-restricted/two-levels": "five=5,two=2", "enum-restricted/leaf-list": "six=6",
 		"bits-restricted/leaf": "b@2,g@6", "bits-restricted/sibling-keeps-all": "a@0,b@2,f@5,g@6", "bits-restricted/two-levels": "g@6",
 		"leafref/relative": "uint8", "leafref/absolute": "uint8", "leafref/through-list": "int64", "leafref/to-leafref": "uint8", "leafref/in-grouping-used-twice": "uint8",
